@@ -55,7 +55,7 @@ def check(run, P):
     run.rule("C12.exit", "early exits jump to the exit label; after it every entry of "
              "the symbol table is released, unfiltered", minimum=5)
     run.rule("C12.move", "move: release old value, associate pointer, associate "
-             "count, increment", minimum=1)
+             "count, increment - each unconditionally", minimum=2)
     run.rule("C12.alloc", "allocation check before every in-place write of a "
              "user-type value and before a call that assigns one", minimum=2)
     run.rule("C12.deinit", "emitted alloc-check / deinit routines have the "
@@ -175,6 +175,19 @@ def _move(run, P):
             and "name_refcount(expr.name)" in e2[1].get("refcnt", "") \
             and isinstance(e3, tuple) and e3[0] == "{tgt_refcnt} = {tgt_refcnt} + 1" \
             and "name_refcount(assignee_sym)" in e3[1].get("tgt_refcnt", "")
+    # every emission happens on every path (no operand-dependent skip)
+    g = CFG(f.node)
+    emit_nodes = [n for n in g.nodes if n.kind == "stmt" and n.ast is not None and any(
+        isinstance(x, ast.Call) and (dotted(x.func) or "").startswith("self.emit")
+        for x in walk_fragment(n.ast))]
+    uncond = all(g.exit not in g.reachable([g.entry], avoid=[n], follow_exc=False,
+                                            include_start=True) for n in emit_nodes)
+    run.ob("C12.move", f, f.node, bool(emit_nodes) and uncond,
+           construct=f"emit_user_type_move: each of its {len(emit_nodes)} emissions is made on "
+                     f"every path",
+           why="a release that is only emitted for persistent assignees leaks the old "
+               "value of a temporary that is the target of a second move in the same "
+               "phase call (a copy-in placed inside a loop body, say)")
     run.ob("C12.move", f, f.node, ok,
            construct=f"event order: {[e if isinstance(e, str) else e[0] for e in events]}",
            why="incrementing before the counts are aliased, or aliasing before the old "
